@@ -4,7 +4,7 @@ PROP = dict(
         gotest="TestC13",
         translator="arithC13",
         extra_props=["ArithTieC13"],
-        extra_gotests=[("TestZdec", "Zdec"), ("TestC13Ledger", "C13l")],
+        extra_gotests=[("TestZdec", "Zdec"), ("TestC13Ledger", "C13l"), ("TestC13Ibc", "C13i")],
         model="coq/Models/Chef.v (exact: CollectGasFees / CollectPerpRevenue / CollectDEXRevenue split arithmetic incl. the account every portion is "
               "taken from, pool shares and the credited integer of UpdateLPRewards, UpdateAccPerShare, UpdateUserRewardPending/Debt over GetRewardDenoms, "
               "ClaimRewards, AddExternalIncentive, ProcessExternalRewardsDistribution; collected amounts, revenue coins, proxy TVLs and committed share "
